@@ -12,7 +12,7 @@ Proof.
   unfold input. intros I H.
   destruct (negb (x_eof st) && (0 <? x_in_slots st) && (0 <? sz) && (m <? 4)) eqn:C; [|discriminate].
   destruct (x_parsing_done st) eqn:PD; inversion H; subst; auto.
-  destruct I as [Ic Ip Ir Is Iu If Ij Il Ie Im Id Ib]. unfold all_jobs, nparse in *.
+  destruct I as [Ic Ip Ir Is Iu If Ij Il Ie Im Id Ib Iq]. unfold all_jobs, nparse in *.
   constructor; unfold all_jobs, nparse; autorewrite with xs; auto.
   - apply contig_app; simpl; auto. lia.
   - constructor; auto. simpl. apply contig_le in Ic. unfold dbs_norm; simpl. split; lia.
@@ -47,7 +47,7 @@ Proof.
   unfold parse0. intros I H. destruct (selects TParse st) eqn:S; [|discriminate].
   apply selects_ready in S. simpl in S. unfold can_parse in S. bool_hyps.
   match goal with H : can_attach _ _ = true |- _ => apply can_attach_le in H end.
-  destruct I as [Ic Ip Ir Is Iu If Ij Il Ie Im Id Ib].
+  destruct I as [Ic Ip Ir Is Iu If Ij Il Ie Im Id Ib Iq].
   set (st1 := set_work_units (N.pred (x_work_units st)) (set_parse_token false st)) in *.
   destruct (attach (x_parser_bs st1) st1) as [st2 att] eqn:A.
   assert (E2 : st2 = fst (attach (x_parser_bs st1) st1)) by (rewrite A; reflexivity).
@@ -65,6 +65,7 @@ Proof.
   - auto.
   - congruence.
   - apply attach_ok; nrm; auto.
+  - auto.
 Qed.
 
 Lemma norm_same_bit a b : dbs_norm a = true -> dbs_norm b = true -> d_bit a = d_bit b -> d_off a = d_off b.
@@ -88,7 +89,7 @@ Proof.
   destruct (take_min rjob_eqb rkey j (x_retr_q st)) as [q|] eqn:T; [|discriminate].
   apply take_min_spec in T. destruct T as [R M].
   destruct (remove_one_split _ rjob_eqb_eq _ _ _ R) as (l1 & l2 & EQ & Eq).
-  destruct I as [Ic Ip Ir Is Iu If Ij Il Ie Im Id Ib].
+  destruct I as [Ic Ip Ir Is Iu If Ij Il Ie Im Id Ib Iq].
   unfold all_jobs, nparse in *.
   assert (Jj : job_ok st j) by (rewrite Forall_forall in Ij; apply Ij; apply in_or_app; left; rewrite EQ; apply in_or_app; right; left; auto).
   assert (Hj : x_head_offs st <= d_off (r_cur j)) by (rewrite Forall_forall in Ir; apply Ir; rewrite EQ; apply in_or_app; right; left; auto).
@@ -119,6 +120,7 @@ Proof.
   - constructor; auto.
   - auto.
   - apply attach_ok; nrm; auto.
+  - auto.
 Qed.
 
 Lemma inv_scan0 st st' : inv st -> scan0 st = Some st' -> inv st'.
@@ -127,7 +129,7 @@ Proof.
   apply selects_ready in S. simpl in S. unfold can_scan in S. bool_hyps.
   destruct (qmin d_pos pos_lt (x_scan_q st)) as [s|] eqn:Q; [|discriminate].
   destruct (remove_one dbs_eqb s (x_scan_q st)) as [q|] eqn:R; [|discriminate].
-  destruct I as [Ic Ip Ir Is Iu If Ij Il Ie Im Id Ib].
+  destruct I as [Ic Ip Ir Is Iu If Ij Il Ie Im Id Ib Iq].
   unfold all_jobs, nparse in *.
   destruct (remove_one_Forall _ dbs_eqb_eq _ _ _ _ R Is) as [Is' [Hs Ns]].
   match goal with H : can_attach _ _ = true |- _ => apply can_attach_le in H; rename H into CA end.
@@ -149,6 +151,7 @@ Proof.
   - auto.
   - auto.
   - apply attach_ok; nrm; auto.
+  - auto.
 Qed.
 
 Lemma jm_app_new us u j : u_complete u = false -> jm (us ++ [u]) j = jm us j.
@@ -184,6 +187,18 @@ Proof.
     + subst u. simpl. auto.
 Qed.
 
+Lemma nodup_snoc {A} (l : list A) x : NoDup l -> ~ In x l -> NoDup (l ++ [x]).
+Proof.
+  induction l as [|a r IH]; simpl; intros H N.
+  - constructor; auto.
+  - inversion H; subst. constructor.
+    + rewrite in_app_iff. simpl. intros [K|[K|[]]]; auto.
+    + apply IH; auto.
+Qed.
+
+Lemma fresh_not_in us id : Forall (fun u => u_id u < id) us -> ~ In id (map u_id us).
+Proof. rewrite Forall_forall, in_map_iff. intros H (u & E & Hu). apply H in Hu. lia. Qed.
+
 Lemma inv_scan1 cfg s att found s' more st st' : cfg_safe cfg -> inv st -> scan1 cfg s att found s' more st = Some st' -> inv st'.
 Proof.
   intros (CS & CJ & CR) I H. unfold scan1 in H.
@@ -206,7 +221,7 @@ Proof.
   { subst s3. destruct (pos_le (d_pos s') (d_pos (x_parser_bs s2)) || (d_off s' <? x_head_offs s2)) eqn:K.
     - split; [|nrm; auto]. eapply inv_view; [|eauto]. view_tac.
     - split; [|nrm; auto]. apply orb_false_iff in K. destruct K as [_ K].
-      destruct I2 as [Ic Ip Ir Is Iu If Ij Il Ie Im Id Ib]. unfold all_jobs, nparse in *.
+      destruct I2 as [Ic Ip Ir Is Iu If Ij Il Ie Im Id Ib Iq]. unfold all_jobs, nparse in *.
       constructor; nrm; auto.
       + constructor; auto. simpl. lia.
       + apply Forall_app. split; auto. constructor; auto. unfold unord_ok; simpl.
@@ -235,10 +250,11 @@ Proof.
         rewrite Z. rewrite andb_false_r. simpl.
         rewrite (filter_len_ext (jm (x_unords s2 ++ [mkunord (x_next_uid s2) (d_pos s') s' false false true])) (jm (x_unords s2)));
           [exact Ie|]. intros. apply jm_app_new. reflexivity.
-      + eapply Forall_impl; [|exact Im]. intros j. rewrite jm_app_new by reflexivity. auto. }
+      + eapply Forall_impl; [|exact Im]. intros j. rewrite jm_app_new by reflexivity. auto.
+      + rewrite map_app. simpl. apply nodup_snoc; auto. apply fresh_not_in; auto. }
   destruct I3 as (I3 & Hh3 & Q3).
   destruct (more && (x_head_offs s3 <=? d_off s')) eqn:RQ; inversion H; subst; auto.
-  bool_hyps. destruct I3 as [Ic Ip Ir Is Iu If Ij Il Ie Im Id Ib]. unfold all_jobs, nparse in *.
+  bool_hyps. destruct I3 as [Ic Ip Ir Is Iu If Ij Il Ie Im Id Ib Iq]. unfold all_jobs, nparse in *.
   constructor; nrm; auto.
   constructor; auto. split; auto. lia.
 Qed.
@@ -268,6 +284,33 @@ Proof.
   intro C. rewrite S3. apply B2. destruct (u_complete u0); auto. specialize (S6 eq_refl). congruence.
 Qed.
 
+Lemma nodup_map_filter {A B} (f : A -> B) p l : NoDup (map f l) -> NoDup (map f (filter p l)).
+Proof.
+  induction l as [|a r IH]; simpl; intro H; auto. inversion H; subst.
+  destruct (p a); simpl; auto. constructor; auto.
+  intro K. apply H2. apply in_map_iff in K. destruct K as (x & E & Hx). apply filter_In in Hx.
+  apply in_map_iff. exists x. tauto.
+Qed.
+
+Lemma map_id_upd id f us : (forall u, u_id (f u) = u_id u) -> map u_id (upd_unord id f us) = map u_id us.
+Proof.
+  intro H. unfold upd_unord. rewrite map_map. apply map_ext. intro u. destruct (u_id u =? id); auto.
+Qed.
+
+Lemma nodup_drop_link l us : NoDup (map u_id us) -> NoDup (map u_id (drop_link l us)).
+Proof.
+  intro H. unfold drop_link. destruct l as [id|]; auto. destruct (get_unord id us) as [u|]; auto.
+  destruct (u_complete u).
+  - apply nodup_map_filter; auto.
+  - rewrite map_id_upd; auto.
+Qed.
+
+Lemma nodup_drop_links js us : NoDup (map u_id us) -> NoDup (map u_id (drop_links js us)).
+Proof.
+  unfold drop_links. revert us. induction js as [|j r IH]; simpl; intros us H; auto.
+  apply IH. apply nodup_drop_link. auto.
+Qed.
+
 Definition masters (st : xstate) : nat := length (filter (jm (x_unords st)) (all_jobs st)).
 
 Lemma inv_advance cfg bs st :
@@ -278,7 +321,7 @@ Lemma inv_advance cfg bs st :
   (forall u, In u (x_unords (advance cfg bs st)) -> exists u0, In u0 (x_unords st) /\ stems u u0) /\
   (forall P, Forall P (x_retr_q st) -> Forall P (x_retr_q (advance cfg bs st))).
 Proof.
-  intros [Ic Ip Ir Is Iu If Ij Il Ie Im Id Ib] M0 Hb. unfold masters, all_jobs, nparse in *.
+  intros [Ic Ip Ir Is Iu If Ij Il Ie Im Id Ib Iq] M0 Hb. unfold masters, all_jobs, nparse in *.
   set (sa := adv_input (d_off bs) (set_parser_bs bs st)).
   assert (Ca : contig (x_head_offs sa) (x_input_q sa) (x_tail_offs st) /\ x_head_offs st <= x_head_offs sa /\ x_head_offs sa <= d_off bs).
   { assert (P0 : contig (x_head_offs (set_parser_bs bs st)) (x_input_q (set_parser_bs bs st)) (x_tail_offs (set_parser_bs bs st))) by (nrm; exact Ic).
@@ -296,18 +339,19 @@ Proof.
   pose proof (adv_scan_spec (length (x_scan_q st)) (x_head_offs sa) (x_scan_q st) (le_n _) Ns) as (Q1 & Q2 & Q3).
   assert (EH : x_head_offs (advance cfg bs st) = x_head_offs sa) by (unfold advance; nrm; reflexivity).
   assert (EI : x_input_q (advance cfg bs st) = x_input_q sa) by (unfold advance; nrm; reflexivity).
+  assert (Erq : x_retr_q sa = x_retr_q st) by (subst sa; nrm; reflexivity).
+  assert (Eus : x_unords sa = x_unords st) by (subst sa; nrm; reflexivity).
+  assert (Esq : x_scan_q sa = x_scan_q st) by (subst sa; nrm; reflexivity).
   assert (ER : x_retr_q (advance cfg bs st) = snd dk).
-  { unfold advance. nrm. unfold adv_jobs. fold sa. subst dk. replace (x_retr_q sa) with (x_retr_q st) by (subst sa; nrm; reflexivity).
-    destruct (c_advance_drops_link cfg); nrm; reflexivity. }
+  { unfold advance. nrm. unfold adv_jobs. fold sa. subst dk.
+    destruct (c_advance_drops_link cfg); nrm; rewrite ?Erq, ?Eus; reflexivity. }
   assert (EU : x_unords (advance cfg bs st) = us').
-  { unfold advance. nrm. unfold adv_jobs. fold sa. subst us' dk. replace (x_retr_q sa) with (x_retr_q st) by (subst sa; nrm; reflexivity).
-    replace (x_unords sa) with (x_unords st) by (subst sa; nrm; reflexivity).
-    destruct (c_advance_drops_link cfg); nrm; reflexivity. }
+  { unfold advance. nrm. unfold adv_jobs. fold sa. subst us' dk.
+    destruct (c_advance_drops_link cfg); nrm; rewrite ?Erq, ?Eus; reflexivity. }
   assert (ES : x_scan_q (advance cfg bs st) = adv_scan (length (x_scan_q st)) (x_head_offs sa) (x_scan_q st)).
   { unfold advance, adv_scans. nrm. unfold adv_jobs. fold sa.
-    replace (x_head_offs (if c_advance_drops_link cfg then _ else _)) with (x_head_offs sa) by (destruct (c_advance_drops_link cfg); nrm; reflexivity).
-    replace (x_scan_q (if c_advance_drops_link cfg then _ else _)) with (x_scan_q st) by (destruct (c_advance_drops_link cfg); subst sa; nrm; reflexivity).
-    reflexivity. }
+    destruct (c_advance_drops_link cfg); nrm; rewrite ?Erq, ?Eus, ?Esq; reflexivity. }
+  assert (EP : x_parser_bs (advance cfg bs st) = bs) by (unfold advance; nrm; reflexivity).
   assert (JM : forall j, jm us' j = true -> jm (x_unords st) j = true) by (intro j; apply jm_stems; auto).
   assert (MZ : forall j, In j (x_retr_q st ++ run_jobs (x_running st)) -> jm (x_unords st) j = false).
   { intros j Hj. destruct (jm (x_unords st) j) eqn:E; auto.
@@ -321,7 +365,7 @@ Proof.
     assert (Hin : In j (filter (jm us') (snd dk ++ run_jobs (x_running st)))) by (rewrite FL; left; auto).
     apply filter_In in Hin. destruct Hin as [Hin Hm]. apply JM in Hm. rewrite (MZ j (SUB _ Hin)) in Hm. discriminate. }
   split; [|split; [|split; [|split; [|split]]]].
-  - constructor; unfold all_jobs, nparse; rewrite ?EH, ?EI, ?ER, ?EU, ?ES; unfold advance; nrm.
+  - constructor; unfold all_jobs, nparse; rewrite ?EH, ?EI, ?ER, ?EU, ?ES, ?EP; nrm.
     + exact Ca1.
     + intros _. exact Ca3.
     + exact K1.
@@ -334,14 +378,15 @@ Proof.
       destruct S0 as (S1 & _). rewrite S1. auto.
     + apply Forall_forall. intros j Hj. apply SUB in Hj. rewrite Forall_forall in Ij.
       eapply job_ok_stems; [| |apply Ij; exact Hj].
-      * unfold advance; nrm; reflexivity.
+      * nrm; reflexivity.
       * rewrite EU. exact ST.
     + intro id. specialize (Il id). rewrite filter_len_app in *. rewrite (K3 (links id)) in Il. lia.
     + rewrite MZ'. lia.
     + apply Forall_forall. intros j Hj Hm. apply JM in Hm. rewrite MZ in Hm; [discriminate|]. apply in_or_app; auto.
     + exact Id.
     + exact Ib.
-  - unfold masters, all_jobs. rewrite ER, EU. unfold advance; nrm. exact MZ'.
+    + subst us'. destruct (c_advance_drops_link cfg); auto. apply nodup_drop_links; auto.
+  - unfold masters, all_jobs. rewrite ER, EU. nrm. exact MZ'.
   - rewrite EH. exact Ca2.
   - rewrite EH. exact Ca3.
   - rewrite EU. exact ST.
